@@ -1,6 +1,6 @@
 SPECIFICATION TraceSpec
 CONSTANTS
-  Cases = {0, 1, 2, 3, 4, 5}
+  Cases = {0, 1, 2, 3, 4, 5, 6, 7}
   MaxWorkers = 16
   MaxCrash = 6
   MaxInc = 60
